@@ -54,6 +54,7 @@ def main():
             rdir = os.path.join(base, name + "-replays")
             env["VERIF_REPLAY_DIR"] = os.path.join(rdir, p)
             env.setdefault("VERIF_TIMEOUT", "400")
+            env["VERIF_EVIDENCE_DIR"] = os.path.join(base, "evidence")
             t0 = time.time()
             r = subprocess.run([os.path.join(ROOT, "run"), p, tier], env=env, stdout=subprocess.PIPE, stderr=subprocess.STDOUT, text=True, cwd=ROOT)
             dt = time.time() - t0
